@@ -302,7 +302,7 @@ func init() {
 		f, _ := c11Parse(string(cs.S[0]), string(cs.S[1]))
 		return f
 	})
-	sigmaQ := []string{"a", "b", "=", "&", "+", "%", "2", "B", "4", "é", "\xff", " ", ";"}
+	sigmaQ := []string{"a", "b", "=", "&", "+", "%", "2", "B", "4", "é", "\xff", " ", ";", "\t"}
 	register(&fw.Check{
 		ID:    "C11",
 		Level: "model_checking",
